@@ -28,6 +28,7 @@ CONSTANTS Accts,                 \* account ids
           MaxDepth,              \* nesting of frames
           MaxFrames,             \* frames per transaction
           MaxTx,                 \* transactions on the one state object
+          MaxMuts,               \* state modifications per transaction
           AsCoded
 
 Kinds == {"call", "callcode", "delegate", "static", "create"}
@@ -40,18 +41,19 @@ VARIABLES stor, bal, live,       \* journalled account state: storage slot, bala
           journal,               \* undo records
           frames,                \* open frames, outermost first
           tx, nframes, phase,    \* transaction counter, frames used, "idle" | "run"
+          nmut,                  \* modifications made in this transaction
           receipt,               \* logs handed to the receipt of the last finished transaction
           lastFail,              \* <<state after the last failing frame, its ghost>> or <<>>
           hist                   \* the call history (generator)
-vars == <<stor, bal, live, logs, tstore, access, journal, frames, tx, nframes, phase, receipt, lastFail, hist>>
+vars == <<stor, bal, live, logs, tstore, access, journal, frames, tx, nframes, phase, nmut, receipt, lastFail, hist>>
 
-NoHist == <<stor, bal, live, logs, tstore, access, journal, frames, tx, nframes, phase, receipt, lastFail>>
+NoHist == <<stor, bal, live, logs, tstore, access, journal, frames, tx, nframes, phase, nmut, receipt, lastFail>>
 Obs == [stor |-> stor, bal |-> bal, live |-> live, logs |-> logs, tstore |-> tstore]
 Zero == [a \in Accts |-> 0]
 
 Init == /\ stor = Zero /\ bal = [a \in Accts |-> 2] /\ live = [a \in Accts |-> TRUE]
         /\ logs = <<>> /\ tstore = Zero /\ access = {} /\ journal = <<>> /\ frames = <<>>
-        /\ tx = 0 /\ nframes = 0 /\ phase = "idle" /\ receipt = <<>> /\ lastFail = <<>> /\ hist = <<>>
+        /\ tx = 0 /\ nframes = 0 /\ nmut = 0 /\ phase = "idle" /\ receipt = <<>> /\ lastFail = <<>> /\ hist = <<>>
 
 Top == frames[Len(frames)]
 InStatic == frames # <<>> /\ Top.static
@@ -60,7 +62,7 @@ H(rec) == hist' = Append(hist, rec)
 (* AccountDB.Prepare + the outermost call of the transaction *)
 TxBegin ==
   /\ phase = "idle" /\ tx < MaxTx
-  /\ tx' = tx + 1 /\ phase' = "run" /\ nframes' = 1
+  /\ tx' = tx + 1 /\ phase' = "run" /\ nframes' = 1 /\ nmut' = 0
   /\ access' = {}
   /\ tstore' = IF AsCoded THEN tstore ELSE Zero        \* as coded: Prepare leaves transientStorage alone
   /\ journal' = <<>>
@@ -78,31 +80,31 @@ Enter(kind, a) ==
                                jidx |-> Len(journal), ghost |-> Obs,
                                sghost |-> IF InStatic THEN Top.sghost ELSE Obs])   \* state when the outermost static frame was entered
   /\ H([op |-> "enter", kind |-> kind, a |-> a])
-  /\ UNCHANGED <<stor, bal, live, logs, tstore, journal, tx, phase, receipt, lastFail>>
+  /\ UNCHANGED <<stor, bal, live, logs, tstore, journal, tx, phase, nmut, receipt, lastFail>>
 
 (* state modifications, all refused in static context *)
-SStore(a, v) == /\ phase = "run" /\ frames # <<>> /\ ~InStatic /\ stor[a] # v
+SStore(a, v) == /\ nmut < MaxMuts /\ nmut' = nmut + 1 /\ phase = "run" /\ frames # <<>> /\ ~InStatic /\ stor[a] # v
                 /\ journal' = Append(journal, [t |-> "stor", a |-> a, prev |-> stor[a]])
                 /\ stor' = [stor EXCEPT ![a] = v]
                 /\ H([op |-> "sstore", a |-> a, v |-> v])
                 /\ UNCHANGED <<bal, live, logs, tstore, access, frames, tx, nframes, phase, receipt, lastFail>>
-TStore(a, v) == /\ phase = "run" /\ frames # <<>> /\ ~InStatic /\ tstore[a] # v
+TStore(a, v) == /\ nmut < MaxMuts /\ nmut' = nmut + 1 /\ phase = "run" /\ frames # <<>> /\ ~InStatic /\ tstore[a] # v
                 /\ journal' = Append(journal, [t |-> "tstor", a |-> a, prev |-> tstore[a]])
                 /\ tstore' = [tstore EXCEPT ![a] = v]
                 /\ H([op |-> "tstore", a |-> a, v |-> v])
                 /\ UNCHANGED <<stor, bal, live, logs, access, frames, tx, nframes, phase, receipt, lastFail>>
-Log(id) == /\ phase = "run" /\ frames # <<>> /\ ~InStatic
+Log(id) == /\ nmut < MaxMuts /\ nmut' = nmut + 1 /\ phase = "run" /\ frames # <<>> /\ ~InStatic
            /\ journal' = Append(journal, [t |-> "log", a |-> 0, prev |-> 0])
            /\ logs' = Append(logs, <<tx, id>>)
            /\ H([op |-> "log", a |-> id, v |-> 0])
            /\ UNCHANGED <<stor, bal, live, tstore, access, frames, tx, nframes, phase, receipt, lastFail>>
-Transfer(a, b) == /\ phase = "run" /\ frames # <<>> /\ ~InStatic /\ a # b /\ bal[a] >= 1
+Transfer(a, b) == /\ nmut < MaxMuts /\ nmut' = nmut + 1 /\ phase = "run" /\ frames # <<>> /\ ~InStatic /\ a # b /\ bal[a] >= 1
                   /\ journal' = Append(journal, [t |-> "bal", a |-> a, prev |-> bal[a]]) \o
                                 <<[t |-> "bal", a |-> b, prev |-> bal[b]]>>
                   /\ bal' = [bal EXCEPT ![a] = @ - 1, ![b] = @ + 1]
                   /\ H([op |-> "transfer", a |-> a, v |-> b])
                   /\ UNCHANGED <<stor, live, logs, tstore, access, frames, tx, nframes, phase, receipt, lastFail>>
-Destroy(a) == /\ phase = "run" /\ frames # <<>> /\ ~InStatic /\ live[a]
+Destroy(a) == /\ nmut < MaxMuts /\ nmut' = nmut + 1 /\ phase = "run" /\ frames # <<>> /\ ~InStatic /\ live[a]
               /\ journal' = Append(journal, [t |-> "live", a |-> a, prev |-> TRUE])
               /\ live' = [live EXCEPT ![a] = FALSE]
               /\ H([op |-> "destroy", a |-> a, v |-> 0])
@@ -128,7 +130,7 @@ Finish(rec) == IF Len(frames) = 1
 ExitOk == /\ phase = "run" /\ frames # <<>>
           /\ frames' = SubSeq(frames, 1, Len(frames) - 1)
           /\ H([op |-> "ok"])
-          /\ UNCHANGED <<stor, bal, live, logs, tstore, access, journal, tx, nframes, lastFail>>
+          /\ UNCHANGED <<stor, bal, live, logs, tstore, access, journal, tx, nframes, nmut, lastFail>>
           /\ Finish("ok")
 
 ExitFail(mode) ==
@@ -141,7 +143,7 @@ ExitFail(mode) ==
         /\ lastFail' = <<st, Top.ghost>>
   /\ frames' = SubSeq(frames, 1, Len(frames) - 1)
   /\ H([op |-> "fail", mode |-> mode])
-  /\ UNCHANGED <<access, tx, nframes>>
+  /\ UNCHANGED <<access, tx, nframes, nmut>>
   /\ Finish("fail")
 
 Next == \/ TxBegin
